@@ -213,3 +213,123 @@ Example C20_bw_instance :
   outs CON 68 = [[(ACK, 95, [7])]; [(ACK, 95, [7])]; [(ACK, 0, [])]] /\
   outs NON 128 = [[(CON, 95, [7])]; [(CON, 95, [7])]; [(CON, 128, [7])]].
 Proof. vm_compute. repeat split. Qed.
+
+(* ---- requests the handler edits before it sets the response (NoResp/EditModel.v: the request's option
+   array, the in-place loops of message.Options.Set/Add/Remove on it, the writer as New + SetResponse) ----
+
+   The writer is made of req.Options()...: a slice header over the option array of the very message the
+   handler gets and may edit (a gateway annotating a request before it passes it on).  "The No-Response
+   value a request carries" is the one it carried when it arrived; the theorems say that the decision
+   follows that value for EVERY option array (any capacity, any stale contents), EVERY script of edits and
+   EVERY code, on the writer and on the wire. *)
+From GoCoap Require Import Opt.Model Opt.Proofs NoResp.EditModel NoResp.EditProofs NoResp.EditWire.
+
+(* refused exactly when RFC 7967 marks the class as not of interest for the value the request carried *)
+Theorem C20_edit_exact : forall a n es code pre bs post,
+  take a n = pre ++ (NoResp.Model.NoResponseID, bs) :: post ->
+  0 <= code -> Forall (fun b => 0 <= b) bs ->
+  Forall (fun o => fst o <> NoResp.Model.NoResponseID) pre ->
+  fst (session a n es code) = spec_suppressed code (NoResp.Model.decode_uint32 bs).
+Proof. exact session_exact. Qed.
+Print Assumptions C20_edit_exact.
+
+Theorem C20_edit_without_option : forall a n es code,
+  NoResp.Model.get_uint32 (take a n) NoResp.Model.NoResponseID = None ->
+  fst (session a n es code) = false.
+Proof. exact session_without_option. Qed.
+Print Assumptions C20_edit_without_option.
+
+(* the edits are not ignored by the model: the handler sees the list-level run of C15 (Opt/Model.v),
+   the array keeps its capacity *)
+Theorem C20_edit_handler_sees_edits : forall a n es code,
+  0 <= n <= len a -> sorted (take a n) ->
+  w_live (snd (session a n es code)) = l_run (take a n) es /\
+  sorted (w_live (snd (session a n es code))) /\
+  len (orig (snd (session a n es code))) = len a.
+Proof. exact session_handler_sees_edits. Qed.
+Print Assumptions C20_edit_handler_sees_edits.
+
+(* a handler that strips the option before it forwards the request: gone from the request, still honoured *)
+Theorem C20_edit_can_remove_option : forall a n code,
+  0 <= n <= len a -> sorted (take a n) ->
+  let r := session a n [ERemove NoResp.Model.NoResponseID] code in
+  has_option (w_live (snd r)) NoResp.Model.NoResponseID = false /\
+  fst r = rw_refuses (take a n) code.
+Proof. exact session_can_remove_option. Qed.
+Print Assumptions C20_edit_can_remove_option.
+
+(* the in-place loops: the array afterwards is the list-level result followed by the untouched old
+   contents of the other slots *)
+Theorem C20_edit_add_in_place : forall (a : list opt) n o, 0 <= n -> n < len a -> sorted (take a n) ->
+  add_arr a n o = (add (take a n) o ++ drop a (n + 1), n + 1).
+Proof. exact add_arr_spec. Qed.
+Print Assumptions C20_edit_add_in_place.
+
+Theorem C20_edit_set_in_place : forall (a : list opt) n o, 0 <= n <= len a -> sorted (take a n) ->
+  (grows (set_plan_of (take a n) o) = true -> n < len a) ->
+  set_arr a n o = (set (take a n) o ++ drop a (len (set (take a n) o)), len (set (take a n) o)).
+Proof. exact set_arr_spec. Qed.
+Print Assumptions C20_edit_set_in_place.
+
+Theorem C20_edit_remove_in_place : forall (a : list opt) n id, 0 <= n <= len a -> sorted (take a n) ->
+  remove_arr a n id =
+    (Opt.Model.remove (take a n) id ++ drop a (len (Opt.Model.remove (take a n) id)), len (Opt.Model.remove (take a n) id))
+  /\ 0 <= len (Opt.Model.remove (take a n) id) <= n.
+Proof. exact remove_arr_spec. Qed.
+Print Assumptions C20_edit_remove_in_place.
+
+(* on the connection: the request step with an editing handler is the step of Dedup/Model.v for the
+   options the request had when it arrived ... *)
+Theorem C20_edit_step_is_step : forall s typ mid tok code a n es b,
+  fst (estep s typ mid tok code a n es b) = step s (Req typ mid tok code (take a n) b).
+Proof. exact estep_is_step. Qed.
+Print Assumptions C20_edit_step_is_step.
+
+(* ... so a suppressed response is never put on the wire, whatever the handler did to the request ... *)
+Theorem C20_edit_wire_suppressed : forall s typ mid tok code a n es rc o p,
+  (if is_cacheable_typ typ then cache_load (cache s) mid else None) = None ->
+  fst (session a n es rc) = true ->
+  o_out (snd (fst (estep s typ mid tok code a n es (BResp rc o p)))) = (if typ =? CON then [bare_ack mid] else []).
+Proof. exact edit_wire_suppressed. Qed.
+Print Assumptions C20_edit_wire_suppressed.
+
+(* ... and a response of a class that was not suppressed is never dropped *)
+Theorem C20_edit_wire_passed : forall s typ mid tok code a n es rc o p,
+  (if is_cacheable_typ typ then cache_load (cache s) mid else None) = None ->
+  fst (session a n es rc) = false ->
+  exists r, o_out (snd (fst (estep s typ mid tok code a n es (BResp rc o p)))) = [r] /\
+            w_code r = rc /\ w_tok r = tok /\ w_pay r = p.
+Proof. exact edit_wire_passed. Qed.
+Print Assumptions C20_edit_wire_passed.
+
+(* why the value must be decoded when the writer is created: for every request whose last option is
+   No-Response and whose array has a free slot, after the handler added ANY option with a smaller number
+   the slice header the writer was given shows the options without No-Response, and a writer that looked
+   the option up through it when the response is set would accept every code *)
+Theorem C20_edit_lazy_lookup_loses_option : forall (a : list opt) n (pre : list opt) bs id v code,
+  0 <= n -> n < len a -> take a n = pre ++ [(NoResp.Model.NoResponseID, bs)] -> sorted (take a n) ->
+  Forall (fun x => oid x < NoResp.Model.NoResponseID) pre -> id < NoResp.Model.NoResponseID ->
+  lazy_session a n [EAdd id v] code = false.
+Proof. exact lazy_lookup_loses_option. Qed.
+Print Assumptions C20_edit_lazy_lookup_loses_option.
+
+Theorem C20_edit_lazy_lookup_refuted : exists (a : list opt) n es code (pre : list opt) bs,
+  take a n = pre ++ [(NoResp.Model.NoResponseID, bs)] /\
+  spec_suppressed code (NoResp.Model.decode_uint32 bs) = true /\
+  fst (session a n es code) = true /\
+  lazy_session a n es code = false.
+Proof. exact lazy_lookup_refuted. Qed.
+Print Assumptions C20_edit_lazy_lookup_refuted.
+
+(* non-vacuity: GET /seed with No-Response = 2 in a 16-slot array whose free slots hold stale options; the
+   handler adds Uri-Query "via=gw", sets Uri-Host and strips No-Response: the request it passes on is
+   [Uri-Host; Uri-Path; Uri-Query], its own 2.05 is refused (CON: bare ACK), its 4.04 goes out *)
+Example C20_edit_instance :
+  let a := [(11, [115; 101; 101; 100]); (258, [2])] ++ repeat (2000, [224]) 14 in
+  let es := [EAdd 15 [118; 105; 97]; ESet 3 [103; 119]; ERemove 258] in
+  w_live (snd (session a 2 es 69)) = [(3, [103; 119]); (11, [115; 101; 101; 100]); (15, [118; 105; 97])] /\
+  alias_view (snd (session a 2 es 69)) 2 = [(3, [103; 119]); (11, [115; 101; 101; 100])] /\
+  fst (session a 2 es 69) = true /\ fst (session a 2 es 132) = false /\
+  o_out (snd (fst (estep (init 7) CON 21 [9] 1 a 2 es (BResp 69 [] [1])))) = [bare_ack 21] /\
+  map w_code (o_out (snd (fst (estep (init 7) CON 21 [9] 1 a 2 es (BResp 132 [] [1]))))) = [132].
+Proof. vm_compute. repeat split. Qed.
